@@ -140,6 +140,16 @@ def make_probe(desc, kk):
                            A.pr(A.Bin("==", A.Prop(V("w%d" % kk), "p", False), A.Index(V("w%d" % kk), S("p")))), A.pr(V("w%d" % kk))]
             lines = ["4", "5", "true"] + render_obj({"p": 20})
         return {"stmts": stmts, "expect": lines, "tag": "literal_forms", "what": "literal form %d" % idx}
+    if desc[0] == "listprop":
+        path1, path2 = desc[1], desc[2]
+        l = "lp%d" % kk
+        stmts = [A.Declare(V(l), A.lst(I(1), I(2))), A.Declare(V(o), A.obj(("a", V(l)), ("b", V(l)))),
+                 A.OpAssign("+", access(o, "a", path1), A.lst(I(3))), A.pr(V(o)), A.pr(V(l)),
+                 A.pr(A.Bin("==", access(o, "a", path2), A.Bin("+", V(l), A.lst(I(3))))),
+                 A.pr(A.Bin("===", access(o, "b", path2), V(l))), A.pr(A.Bin("===", access(o, "a", path1), V(l)))]
+        lines = ["{", '    "a": [', "        1,", "        2,", "        3,", "    ],", '    "b": [', "        1,", "        2,", "    ],", "}",
+                 "[", "    1,", "    2,", "]", "true", "true", "false"]
+        return {"stmts": stmts, "expect": lines, "tag": "list_property_opassign", "what": "o.a += [3] where o.a and o.b hold the same list (%s/%s)" % (path1, path2)}
     if desc[0] == "dup":
         kinds = desc[1]
         kn = "dk%d" % kk
@@ -196,6 +206,9 @@ def run(rep, tier):
                 descs.append(("perm", keys, perm, rng.choice(["dot", "idx"])))
     for idx in range(6):
         descs.append(("literal", idx))
+    for p1 in ("dot", "idx"):
+        for p2 in ("dot", "idx"):
+            descs.append(("listprop", p1, p2))
     for n in (2, 3):
         for kinds in itertools.product(["pair", "computed", "shorthand", "spread"], repeat=n):
             descs.append(("dup", kinds))
